@@ -28,7 +28,7 @@ RULE = ("One case = one history on an in-process regtest node (mempool with clus
 ASSUMPTIONS = ["the pre-state snapshot (entries with base/modified fee, virtual size, weight, sigop cost, mapDeltas) read under cs_main+pool.cs describes the pool",
                "the reference ledger's UTXO set of the tip gives the values of confirmed inputs",
                "affected clusters have <= 12 transactions so that optimal chunking by subset enumeration is exact (guaranteed by the cluster count limit)",
-               "the whole-pool GetFeerateDiagram() comparison is recorded as advisory only (pool_diagram_improved / pool_diagram_disagree); the affected-cluster brute force is binding (DESIGN §9)"]
+               "the whole-pool GetFeerateDiagram() comparison is recorded as advisory only (pool_diagram_improved / pool_diagram_below[_with_negative_fees] / pool_diagram_not_above); the affected-cluster brute force is binding (DESIGN §9)"]
 REQUIRED = ["judged_accepted", "judged_rejected", "judged_testaccept_accepted", "judged_testaccept_rejected", "rej_insufficient_fee",
             "rej_replacement_failed", "rej_spends_conflicting", "rej_too_many", "accepted_at_exact_threshold", "rejected_at_threshold_minus_1",
             "sibling_eviction_accepted", "sibling_eviction_rejected", "pkg_rbf_accepted", "pkg_rbf_rejected", "accepted_with_prioritised",
@@ -39,7 +39,7 @@ LEVEL_NOTE = "trusted: snapshot reader, reference ledger, own brute-force chunki
 
 def runs(tier, seed):
     n = 24 if tier == "quick" else 1600
-    return [Run("rbf", cases=n, params={"many_every": 4}, timeout=3000 if tier == "quick" else 16000)]
+    return [Run("rbf", cases=n, params={"many_every": 3}, timeout=3000 if tier == "quick" else 16000)]
 
 
 def _diagram(chunks):
